@@ -43,7 +43,7 @@ META = {
     'ref': 'DESIGN.md section 5 C10',
 }
 
-PARAMS = ('a', 'b', 'n', 's', 'l', 'k', 'z')
+PARAMS = ('a', 'b', 'n', 's', 'l', 'k', 'z', 'oi')
 LENGTH = {'s': ('minchars', 'maxchars'), 'l': ('minlen', 'maxlen'), 'k': ('minbytes', 'maxbytes')}   # limits = lengths
 UNITS = {'': 0, 'mm': 1, 'K': 2}
 VIS = {1: 'user', 2: 'advanced', 3: 'expert', 9: 'bogus'}
@@ -61,8 +61,24 @@ def _classes():
     from frappy.errors import HardwareError
     from frappy.params import Limit
 
-    class CfgMod(Readable):
+    class CfgBase(Readable):
+        """interface class: accessibles declared optional, implemented (oi, oc) or not (ou, od) by CfgMod"""
+        oi = Parameter('optional, implemented', FloatRange(0, 100), default=1, readonly=False, optional=True)
+        ou = Parameter('optional, not implemented', FloatRange(0, 100), default=2, readonly=False, optional=True)
+        oc = Command(IntRange(0, 5), result=IntRange(0, 5), description='optional, implemented', optional=True)
+        od = Command(description='optional, not implemented', optional=True)
+
+    class CfgMod(CfgBase):
         """shape known to spec/ConfigRules.tla (PInfo, MInfo)"""
+        oi = Parameter()
+
+        def write_oi(self, value):
+            self._hw('write', 'oi', value)
+            return value
+
+        def oc(self, x):
+            return x
+
         mp = Property('mandatory property', IntRange(0, 5))
         op = Property('optional property', FloatRange(0, 10), default=1, extname='_op')
         a = Parameter('a', FloatRange(0, 100), default=1, readonly=False)
